@@ -4,10 +4,13 @@ import (
 	"bytes"
 	"context"
 	"crypto/sha256"
+	"encoding/binary"
 	"fmt"
 	"os"
 	"path/filepath"
 	"reflect"
+	"runtime"
+	"runtime/pprof"
 	"sort"
 	"strings"
 	"time"
@@ -15,7 +18,16 @@ import (
 	"github.com/codenotary/immudb/embedded/store"
 )
 
-const opTimeout = 8 * time.Second
+// a call is a hang when it has not returned after this long (generous: the machine may be loaded)
+var opTimeout = 120 * time.Second
+
+func init() {
+	if v := os.Getenv("C09_OP_TIMEOUT"); v != "" {
+		if d, err := time.ParseDuration(v); err == nil {
+			opTimeout = d
+		}
+	}
+}
 
 // outcome of one API call on the corrupted copy
 type outcome struct {
@@ -56,6 +68,9 @@ func runOp(f func() error) outcome {
 	case o := <-ch:
 		return o
 	case <-time.After(opTimeout):
+		if os.Getenv("C09_DEBUG") == "stacks" {
+			pprof.Lookup("goroutine").WriteTo(os.Stderr, 1)
+		}
 		return outcome{hung: true}
 	}
 }
@@ -171,6 +186,11 @@ type jobResult struct {
 	didHdr   bool
 	hdr      *store.TxHeader
 	vals     []valRes
+	didExp   bool
+	export   outcome
+	expTrunc bool
+	expVals  [][]byte
+	expEs    []entryInfo
 	findings []string
 	ops      int
 }
@@ -204,16 +224,52 @@ func (img *image) run(j *job) (*jobResult, error) {
 		}
 	}
 	desc := j.describe(img)
-	finding := func(op string, result string, detail string) {
-		res.findings = append(res.findings, fmt.Sprintf("%s op=%s result=%s %s", desc, op, result, detail))
+	// every finding starts with a signature  sig=<op>/<result>/<diagnosis>;  the diagnosis names the
+	// exact circumstance when the harness recognises it, and is "other" otherwise
+	finding := func(op, result, diag, detail string) {
+		res.findings = append(res.findings, fmt.Sprintf("sig=%s/%s/%s; %s op=%s result=%s %s", op, result, diag, desc, op, result, detail))
 	}
-	bad := func(op string, o outcome) bool { // panic / hang are violations whatever the content
+	family := ""
+	switch j.class {
+	case "rewrite":
+		family = "consistent-rewrite"
+	case "relocate":
+		family = "relocated-record"
+	}
+	altered := func(d []string) string { // diagnosis of a transaction read that differs in fields d
+		if family != "" {
+			return family
+		}
+		only := len(d) > 0
+		for _, f := range d {
+			if f != "vLen" && f != "vOff" {
+				only = false
+			}
+		}
+		if only {
+			return "vLen-vOff-only"
+		}
+		return "other"
+	}
+	vlogMissing := func(es []entryInfo) bool { // an entry with vLen > 0 names a value log that s.vLogs does not hold
+		if img.cfg.mode() != 2 {
+			return false
+		}
+		for _, e := range es {
+			id := int(byte(e.vOff >> 56))
+			if e.vLen > 0 && id > img.cfg.ioConc {
+				return true
+			}
+		}
+		return false
+	}
+	bad := func(op string, o outcome, diag string) bool { // panic / hang are violations whatever the content
 		if o.panicked {
-			finding(op, "panic", "("+firstLine(o.panicMsg)+")")
+			finding(op, "panic", diag, "("+firstLine(o.panicMsg)+")")
 			return true
 		}
 		if o.hung {
-			finding(op, "hang", "")
+			finding(op, "hang", diag, "")
 			return true
 		}
 		return false
@@ -225,7 +281,7 @@ func (img *image) run(j *job) (*jobResult, error) {
 		st, e = store.Open(dir, img.cfg.opts())
 		return e
 	})
-	if bad("Open", res.open) || res.open.err != nil {
+	if bad("Open", res.open, "other") || res.open.err != nil {
 		return res, nil
 	}
 	hungStore := false
@@ -244,6 +300,7 @@ func (img *image) run(j *job) (*jobResult, error) {
 			targets = append(targets, k)
 		}
 	}
+	noMoreExports := false
 	for _, tk := range targets {
 		t := img.txs[tk]
 		first := tk == targets[0]
@@ -261,13 +318,13 @@ func (img *image) run(j *job) (*jobResult, error) {
 		if first {
 			res.readTx, res.tx = o, snap
 		}
-		if bad("ReadTx", o) {
+		if bad("ReadTx", o, "other") {
 			hungStore = o.hung
 			return res, nil
 		}
 		if o.ok() {
 			if d := diffTx(snap, t); len(d) > 0 {
-				finding("ReadTx", "altered-content", "differs={"+strings.Join(d, ",")+"}")
+				finding("ReadTx", "altered-content", altered(d), "differs={"+strings.Join(d, ",")+"}")
 			}
 		}
 		// ---- ReadValue on every entry of what ReadTx returned
@@ -275,6 +332,10 @@ func (img *image) run(j *job) (*jobResult, error) {
 			for i := range snap.entries {
 				e := snap.entries[i]
 				vr := valRes{e: e}
+				var ms0, ms1 runtime.MemStats
+				if j.sequential() {
+					runtime.ReadMemStats(&ms0)
+				}
 				vr.o = runOp(func() error {
 					if err := st.ReadTx(t.id, false, holder); err != nil {
 						return err
@@ -284,14 +345,25 @@ func (img *image) run(j *job) (*jobResult, error) {
 					return err
 				})
 				res.ops++
+				if j.sequential() {
+					runtime.ReadMemStats(&ms1)
+					d := ms1.TotalAlloc - ms0.TotalAlloc
+					if j.kind == "vlen-huge" && d >= hugeVLen/2 && e.vLen >= hugeVLen {
+						finding("ReadValue", "unbounded-allocation", "vLen", fmt.Sprintf("entry=%d vLen=%d allocated>=%dMiB although MaxValueLen=%d", i, e.vLen, d>>20, maxValueLen))
+					}
+					if j.kind == "vlen-longer-compressed" && d >= 1<<28 && i == 0 {
+						finding("ReadValue", "unbounded-allocation", "compressed-vlog-vLen-longer", fmt.Sprintf("entry=%d vLen=%d (committed %d) allocated>=%dMiB although MaxValueLen=%d", i, e.vLen, t.entries[i].vLen, d>>20, maxValueLen))
+					}
+				}
 				if first {
 					res.vals = append(res.vals, vr)
 				}
 				detail := fmt.Sprintf("entry=%d vLen=%d vLogID=%d", i, e.vLen, byte(e.vOff>>56))
-				if img.cfg.mode() == 2 && int(byte(e.vOff>>56)) > img.cfg.ioConc {
-					detail += " vlog-id-not-in-s.vLogs"
+				diag := "other"
+				if vr.o.panicked && vlogMissing([]entryInfo{e}) && strings.Contains(vr.o.panicMsg, "nil pointer") {
+					diag = "vlog-id-not-in-map"
 				}
-				if bad("ReadValue", vr.o) {
+				if bad("ReadValue", vr.o, diag) {
 					if vr.o.hung {
 						hungStore = true
 						return res, nil
@@ -299,12 +371,18 @@ func (img *image) run(j *job) (*jobResult, error) {
 					continue
 				}
 				if vr.o.ok() && i < len(t.entries) && !bytes.Equal(vr.val, t.entries[i].value) {
-					if e.vLen == 0 {
-						detail += " empty-value-served-for-vLen-0"
+					diag := "other"
+					if family != "" {
+						diag = family
+					} else if e.vLen == 0 && len(vr.val) == 0 && e.hVal == t.entries[i].hVal {
+						diag = "vLen-0-empty-value"
 					}
-					finding("ReadValue", "altered-content", detail+fmt.Sprintf(" got=%x want=%x", vr.val, t.entries[i].value))
+					finding("ReadValue", "altered-content", diag, detail+fmt.Sprintf(" got=%x want=%x", vr.val, t.entries[i].value))
 				}
 			}
+		}
+		if j.kind == "vlen-huge" || j.kind == "vlen-longer-compressed" {
+			return res, nil
 		}
 		// ---- ReadTx without integrity check (tie only: nothing is promised about its content)
 		if first && j.skip {
@@ -318,7 +396,7 @@ func (img *image) run(j *job) (*jobResult, error) {
 			})
 			res.txSkip, res.didSkip = ss, true
 			res.ops++
-			if bad("ReadTx(skipIntegrityCheck)", res.readSkip) {
+			if bad("ReadTx(skipIntegrityCheck)", res.readSkip, "other") {
 				hungStore = res.readSkip.hung
 				return res, nil
 			}
@@ -334,13 +412,13 @@ func (img *image) run(j *job) (*jobResult, error) {
 		if first {
 			res.readHdr, res.hdr, res.didHdr = o, hdr, true
 		}
-		if bad("ReadTxHeader", o) {
+		if bad("ReadTxHeader", o, "other") {
 			hungStore = o.hung
 			return res, nil
 		}
 		if o.ok() {
 			if d := diffHdr(hdr, t.hdr); len(d) > 0 {
-				finding("ReadTxHeader", "altered-content", "differs={"+strings.Join(d, ",")+"}")
+				finding("ReadTxHeader", "altered-content", altered(d), "differs={"+strings.Join(d, ",")+"}")
 			}
 		}
 		// ---- ReadTxEntry for every committed key
@@ -354,7 +432,7 @@ func (img *image) run(j *job) (*jobResult, error) {
 				return err
 			})
 			res.ops++
-			if bad("ReadTxEntry", o) {
+			if bad("ReadTxEntry", o, "other") {
 				hungStore = o.hung
 				return res, nil
 			}
@@ -374,25 +452,56 @@ func (img *image) run(j *job) (*jobResult, error) {
 					d = append(d, "hVal")
 				}
 				if len(d) > 0 {
-					finding("ReadTxEntry", "altered-content", "differs={"+strings.Join(d, ",")+"}")
+					finding("ReadTxEntry", "altered-content", altered(d), "differs={"+strings.Join(d, ",")+"}")
 				}
 			}
 		}
 		// ---- ExportTx
 		var exp []byte
-		o = runOp(func() error {
-			var e error
-			exp, e = st.ExportTx(t.id, false, false, holder)
-			exp = append([]byte{}, exp...)
-			return e
-		})
-		res.ops++
-		if bad("ExportTx", o) {
+		o = outcome{err: errSkipped}
+		if !noMoreExports {
+			o = runOp(func() error {
+				var e error
+				exp, e = st.ExportTx(t.id, false, false, holder)
+				exp = append([]byte{}, exp...)
+				return e
+			})
+			res.ops++
+		}
+		if first && !noMoreExports && snap != nil && !o.hung {
+			res.didExp, res.export, res.expEs = true, o, snap.entries
+			if o.ok() {
+				var perr error
+				res.expTrunc, res.expVals, perr = parseExport(exp, len(snap.entries))
+				if perr != nil {
+					finding("ExportTx", "malformed-export", "other", perr.Error())
+					res.didExp = false
+				}
+			}
+		}
+		ediag := "other"
+		if o.panicked && snap != nil && vlogMissing(snap.entries) && strings.Contains(o.panicMsg, "nil pointer") {
+			ediag = "vlog-id-not-in-map"
+		}
+		if bad("ExportTx", o, ediag) {
 			hungStore = o.hung
 			return res, nil
 		}
 		if o.ok() && !bytes.Equal(exp, t.export) {
-			finding("ExportTx", "altered-content", fmt.Sprintf("got=%x", sha256.Sum256(exp)))
+			diag := "other"
+			if family != "" {
+				diag = family
+			} else if exportedAsTruncated(exp, t, snap) {
+				// the values are replaced by their committed digests and the export is flagged
+				// "values truncated": nothing false is exported, but the values are silently dropped
+				diag = "exported-as-truncated"
+			}
+			finding("ExportTx", "altered-content", diag, fmt.Sprintf("got=%x", sha256.Sum256(exp)))
+		}
+		if o.err != nil && strings.Contains(o.err.Error(), "partially truncated") {
+			// ExportTx returns from this path with _valBsMux held (property C14): no further
+			// ExportTx on this store, it would block for that reason
+			noMoreExports = true
 		}
 		// ---- TxReader: this transaction, then the next one (PrevAlh chain check)
 		var s1, s2 *txSnap
@@ -416,7 +525,7 @@ func (img *image) run(j *job) (*jobResult, error) {
 			return nil
 		})
 		res.ops++
-		if bad("TxReader.Read", o) {
+		if bad("TxReader.Read", o, "other") {
 			hungStore = o.hung
 			return res, nil
 		}
@@ -428,11 +537,11 @@ func (img *image) run(j *job) (*jobResult, error) {
 				} else if e2 == nil {
 					chain = "next-read-ok"
 				}
-				finding("TxReader.Read", "altered-content", "differs={"+strings.Join(d, ",")+"} chain="+chain)
+				finding("TxReader.Read", "altered-content", altered(d), "differs={"+strings.Join(d, ",")+"} chain="+chain)
 			}
 			if s2 != nil {
 				if d := diffTx(s2, img.txs[tk+1]); len(d) > 0 {
-					finding("TxReader.Read(next)", "altered-content", "differs={"+strings.Join(d, ",")+"}")
+					finding("TxReader.Read(next)", "altered-content", "other", "differs={"+strings.Join(d, ",")+"}")
 				}
 			}
 		}
@@ -455,13 +564,13 @@ func (img *image) run(j *job) (*jobResult, error) {
 				return nil
 			})
 			res.ops++
-			if bad("TxReader.Read(desc)", o) {
+			if bad("TxReader.Read(desc)", o, "other") {
 				hungStore = o.hung
 				return res, nil
 			}
 			if o.ok() {
 				if d := diffTx(sd, t); len(d) > 0 {
-					finding("TxReader.Read(desc)", "altered-content", "differs={"+strings.Join(d, ",")+"}")
+					finding("TxReader.Read(desc)", "altered-content", altered(d), "differs={"+strings.Join(d, ",")+"}")
 				}
 			}
 		}
@@ -480,12 +589,16 @@ func (img *image) run(j *job) (*jobResult, error) {
 			return err
 		})
 		res.ops++
-		if bad("DualProof", o) {
+		if bad("DualProof", o, "other") {
 			hungStore = o.hung
 			return res, nil
 		}
 		if o.ok() && !reflect.DeepEqual(proof, t.proof) {
-			finding("DualProof", "altered-content", "")
+			diag := "other"
+			if family != "" {
+				diag = family
+			}
+			finding("DualProof", "altered-content", diag, "")
 		}
 	}
 
@@ -500,7 +613,7 @@ func (img *image) run(j *job) (*jobResult, error) {
 			return e
 		})
 		st = st2
-		if bad("Open(index rebuild)", o) {
+		if bad("Open(index rebuild)", o, "other") {
 			hungStore = true
 			return res, nil
 		}
@@ -529,7 +642,7 @@ func (img *image) run(j *job) (*jobResult, error) {
 					return err
 				})
 				res.ops++
-				if bad("Get+Resolve(index rebuild)", o) {
+				if bad("Get+Resolve(index rebuild)", o, "other") {
 					if o.hung {
 						hungStore = true
 						return res, nil
@@ -537,11 +650,14 @@ func (img *image) run(j *job) (*jobResult, error) {
 					continue
 				}
 				if o.ok() && (gtx != t.id || ghv != w.hVal || !bytes.Equal(got, w.value)) {
-					detail := fmt.Sprintf("key=%x tx=%d", w.key, gtx)
-					if len(got) == 0 && len(w.value) > 0 {
-						detail += " empty-value-served-for-vLen-0"
+					detail := fmt.Sprintf("key=%x tx=%d got=%x want=%x", w.key, gtx, got, w.value)
+					diag := "other"
+					if family != "" {
+						diag = family
+					} else if len(got) == 0 && len(w.value) > 0 && gtx == t.id && ghv == w.hVal && j.class == "entry.vLen" {
+						diag = "vLen-0-empty-value"
 					}
-					finding("Get+Resolve(index rebuild)", "altered-content", detail)
+					finding("Get+Resolve(index rebuild)", "altered-content", diag, detail)
 				}
 			}
 		}
@@ -557,4 +673,80 @@ func firstLine(s string) string {
 		s = s[:120]
 	}
 	return s
+}
+
+var errSkipped = fmt.Errorf("skipped")
+
+// exportedAsTruncated: the export equals the committed one except that every value is replaced by
+// its committed digest and the trailing flag says "values truncated".
+func exportedAsTruncated(exp []byte, t *txInfo, snap *txSnap) bool {
+	if len(exp) == 0 || exp[len(exp)-1] != 1 || len(t.export) == 0 || t.export[len(t.export)-1] != 0 {
+		return false
+	}
+	// rebuild the expected truncated form from the committed export
+	src := t.export
+	if len(src) < 4 {
+		return false
+	}
+	hl := int(binary.BigEndian.Uint32(src))
+	i := 4 + hl
+	if i > len(src) {
+		return false
+	}
+	want := append([]byte{}, src[:i]...)
+	for k := range t.entries {
+		if i+2 > len(src) {
+			return false
+		}
+		kl := int(binary.BigEndian.Uint16(src[i:]))
+		j := i + 2 + kl
+		if j+2 > len(src) {
+			return false
+		}
+		ml := int(binary.BigEndian.Uint16(src[j:]))
+		j += 2 + ml
+		if j+4 > len(src) {
+			return false
+		}
+		vl := int(binary.BigEndian.Uint32(src[j:]))
+		want = append(want, src[i:j]...)
+		want = binary.BigEndian.AppendUint32(want, 32)
+		want = append(want, t.entries[k].hVal[:]...)
+		i = j + 4 + vl
+	}
+	want = append(want, 0, 1, 1)
+	return bytes.Equal(want, exp)
+}
+
+// parseExport splits an ExportTx result into the truncated flag and the per-entry value payloads.
+func parseExport(exp []byte, n int) (bool, [][]byte, error) {
+	if len(exp) < 4 {
+		return false, nil, fmt.Errorf("short export")
+	}
+	i := 4 + int(binary.BigEndian.Uint32(exp))
+	var vals [][]byte
+	for k := 0; k < n; k++ {
+		if i+2 > len(exp) {
+			return false, nil, fmt.Errorf("short export (key %d)", k)
+		}
+		i += 2 + int(binary.BigEndian.Uint16(exp[i:]))
+		if i+2 > len(exp) {
+			return false, nil, fmt.Errorf("short export (md %d)", k)
+		}
+		i += 2 + int(binary.BigEndian.Uint16(exp[i:]))
+		if i+4 > len(exp) {
+			return false, nil, fmt.Errorf("short export (vlen %d)", k)
+		}
+		vl := int(binary.BigEndian.Uint32(exp[i:]))
+		i += 4
+		if i+vl > len(exp) {
+			return false, nil, fmt.Errorf("short export (value %d)", k)
+		}
+		vals = append(vals, append([]byte{}, exp[i:i+vl]...))
+		i += vl
+	}
+	if i+3 != len(exp) || exp[i] != 0 || exp[i+1] != 1 || exp[i+2] > 1 {
+		return false, nil, fmt.Errorf("bad export trailer")
+	}
+	return exp[i+2] == 1, vals, nil
 }
